@@ -32,7 +32,7 @@ def angularSpectrum(inputComplexAmp, wvl, inputSpacing, outputSpacing, z):
 
     (x1,y1) = numpy.meshgrid(inputSpacing*numpy.arange(-N/2,N/2),
                              inputSpacing*numpy.arange(-N/2,N/2))
-    r1sq = (x1**2 + y1**2) + 1e-10
+    r1sq = x1**2 + y1**2
 
     #Spatial Frequencies (of source plane)
     df1 = 1. / (N*inputSpacing)
